@@ -59,3 +59,5 @@ val numclass_rec :
 val classify : coq_N list -> numclass
 
 val finite_lit : coq_N list -> bool
+
+val widen_f32 : coq_Z -> coq_Z
